@@ -23,13 +23,18 @@ from harness.common import Driver, Result, err_class
 
 LEVEL = "proof"
 TRUSTED_BASE = [
-    "Lean 4.33 kernel; theorem C02.solve_sound (soundness of the solver model for every target, size and outcome script, under the hypothesis "
-    "hfinal = 'the model's final working tableau generates the group of |0..0>') and C02.validator_sound, both on top of the C07/C01 tableau semantics",
+    "Lean 4.33 kernel; theorems C02.solve_sound (soundness of the solver model for every target, size and outcome script, under hfinal = 'the model's "
+    "final working tableau generates the group of |0..0>'), C02.solver_complete / solver_complete_stabilizer (completeness: for every graph on >= 1 vertex without "
+    "isolated vertex / every stabilizer target without product qubit the model returns and hfinal holds), C02.solve_correct (both together) and C02.validator_sound, "
+    "on top of the C07/C01 tableau semantics and the C03 echelon/height theorems",
+    "the completeness theorems carry ONE explicit hypothesis, InverseCircuitComplete (inverse_circuit reaches |0..0> on every valid stabilizer tableau; property C11, "
+    "proved on its own branch and discharged when the branches are merged)",
     "correspondence: the solver model is compared exactly (per-wire operation sequences) with the implementation on every generated target; "
-    "hfinal is evaluated by the driver on every input (flag zero=1); completeness (solve returns, hfinal holds, for EVERY graph) is NOT proved",
+    "hfinal's executable form (driver flag zero=1) is evaluated on every input",
     "harness: translation of the implementation's op sequence into the validator's input (tokens_of), numpy dense reference (n_quantum <= 8)",
 ]
-ASSUMPTIONS = ["targets with an isolated vertex are the known finding D3 (solver raises IndexError) and are evaluated only for that finding"]
+ASSUMPTIONS = ["targets with an isolated vertex are the known finding D3 (solver raises IndexError) and are evaluated only for that finding; "
+               "they (and the empty graph, ValueError) are exactly the targets excluded by the hypotheses of C02.solver_complete"]
 
 KEY_D3 = "solve:target-has-isolated-vertex:raises"
 
